@@ -131,8 +131,21 @@ func runAll(base string, cases []*Case, r *ev.Run) []done {
 			}
 		}()
 	}
-	for i := range cases {
-		if r != nil && i%64 == 0 && r.OverBudget() {
+	// the small targeted families run first, the big product last: if the budget cap
+	// fires on an overloaded machine it cuts the tail of the product, not a family
+	var order []int
+	for i, c := range cases {
+		if c.Family != "product" {
+			order = append(order, i)
+		}
+	}
+	for i, c := range cases {
+		if c.Family == "product" {
+			order = append(order, i)
+		}
+	}
+	for n, i := range order {
+		if r != nil && n%64 == 0 && r.OverBudget() {
 			break
 		}
 		ch <- i
@@ -225,6 +238,9 @@ func main() {
 	nRecords := len(cases)
 	cases = append(cases, sp.recordFamily("record-shapes", len(cases), r.Thorough())...)
 	nRecords = len(cases) - nRecords
+	nBatch := len(cases)
+	cases = append(cases, batchFamily(len(cases), r.Thorough())...)
+	nBatch = len(cases) - nBatch
 	nMS := len(cases)
 	cases = append(cases, multisigFamily(len(cases), r.Thorough())...)
 	nMS = len(cases) - nMS
@@ -330,6 +346,7 @@ func main() {
 		"cases_by_family":                   famCount,
 		"product_cases":                     nProduct,
 		"pairwise_cases":                    nPairwise,
+		"batch_layout_cases":                nBatch,
 		"raw_multisig_cases":                nMS,
 		"record_shape_cases":                nRecords,
 		"pairwise_value_pairs_covered":      pairsTotal,
@@ -349,6 +366,7 @@ func main() {
 		"oracle: accounting model written from the statement (inputs are listed outputs; each destination script = refaddr decode of the typed address with the typed amount, minus the fee for the first -send pair under -f; change = inputs - payments - fee to the -change address or to any of the wallet's own scripts; zero change means no change output); reference packages refaddr, reftx, refhash, refsig, refscript validated against every vector file of the repository at start",
 		"validity: every input must pass script.VerifyTxScript with script.STANDARD_VERIFY_FLAGS|VER_DIS_TAPVER|VER_SIGPUSHONLY and refscript.Verify with Core's STANDARD_SCRIPT_VERIFY_FLAGS|SIGPUSHONLY; random-nonce signatures are judged on validity only; with -rfc6979 ECDSA signatures must equal refsig.ECDSASignRFC6979 (low-S, strict DER, SIGHASH_ALL) over the refhash digest",
 		"family record-shapes (plus the layout 'payout', the record-shape and output-index dimensions of the product and the pairwise array): one funding transaction with 1200..65592 outputs, all paying the wallet's keys with pairwise different values, of which only the outputs at indexes on both sides of every digit-count boundary (0, 9, 10, 99, 100, 999, 1000, 1001, 2345, 9999, 10000, ...) are listed, an index and its truncations both listed and unlisted; records in the shapes the node export, the wallet's own writer, a Windows editor and a person produce; the spent outpoints are compared with the listed set exactly and first",
+		"family batch file layouts: -batch files with 1..5 payment lines (different amounts, duplicate addresses, every number format: full, short, integer, '1.', '00.x', '.x', nine decimals) in the full product of blank-line position (none, start, after the first, before the last, end, several) x blank kind (empty, spaces, tab) x LF/CRLF x with/without final newline, with comment lines (with '=', without '=', bare '#') at the start / between / end and spaces or tabs around the line, the address and the amount; the destinations of the model are ALL payment lines: the wallet either refuses (nothing written, no file modified) or pays every line exactly - a transaction paying a subset is a violation (destination-not-paid-exactly)",
 		"family -raw on multisig P2SH inputs: M-of-N redeem scripts for (M,N) in {(1,1),(1,2),(2,2),(2,3),(3,3),(1,3),(3,5)} inserted with the wallet's own -p2sh step; hold: the wallet holds k = 0..N of the keys (first / last positions, derived and .others keys), an external co-signer has already contributed 0, 1 or all other signatures, one -raw run; chain: the co-signers (one wallet, or two wallets of different type) sign with -raw ... -msign <addr> in every order (N = 5: ten orders in quick, all 120 in thorough), in half of the chains the first step is a plain -raw run; multisig input alone, next to an own input, or two multisig inputs. Judged after every run: the -raw clause against the unsigned transaction, and - as soon as at least M distinct keys have contributed - validity of the input under VerifyTxScript and refscript with standard flags (NULLDUMMY included); the wallet's messages are recorded only",
 		"-raw with a co-signer: a foreign input of each kind carrying the co-signer's VALID signature is part of the offered transaction; that -raw replaces it (observed for foreign P2TR inputs under atype bech32/tap) is recorded in not_judged_observations with an example - the statement's list of what -raw must preserve does not name other signers' data (const judgeForeignSignatureData promotes it)",
 		"the balance folder is synthesised the way the node writes it: balance/<txid>.tx holds the raw funding transaction (legacy or witness serialisation), balance/unspent.txt one '<txid>-<vout> # <amount> BTC @ <addr>, block <h>' line per output; keys and addresses come from the binary itself (-l under each atype, -dump *)",
